@@ -34,8 +34,8 @@ SCRIPTS = {"latn": [("A", 0x41), ("V", 0x56)], "cyrl": [("a-cy", 0x430), ("be-cy
 GEN = ["kern", "dist", "mark", "mkmk", "curs", "abvm", "blwm"]
 
 
-def gen(rng):
-    tags = rng.sample(list(SCRIPTS), rng.randint(1, 3))
+def gen(rng, unkerned_extra=False):
+    tags = rng.sample(list(SCRIPTS), rng.randint(1, 2 if unkerned_extra else 3))
     glyphs, kerning = [], {}
     for t in tags:
         (a, ua), (b, ub) = SCRIPTS[t]
@@ -48,7 +48,7 @@ def gen(rng):
     glyphs.append({"name": "acutecomb", "unicodes": [0x301], "width": 0, "contours": [],
                    "anchors": [("_top", Fr(0), Fr(500))] + ([("top", Fr(0), Fr(700))] if rng.random() < 0.5 else [])})
     lib = {}
-    if rng.random() < 0.4:
+    if rng.random() < 0.4 and not unkerned_extra:
         # a glyph whose code point belongs to several scripts (U+02BC: Latn, Cyrl, Deva, ...) kerned against a glyph of the
         # font, and a NON-EXPORTED glyph of one of those scripts that the font otherwise lacks
         glyphs.append({"name": "apostrophemod", "unicodes": [0x2BC], "width": 200, "anchors": [], "contours": []})
@@ -60,7 +60,7 @@ def gen(rng):
             glyphs.append({"name": n, "unicodes": [u], "width": 500, "anchors": [("top", Fr(250), Fr(700))], "contours": []})
             kerning[(n, "apostrophemod")] = Fr(-10)
             lib["public.skipExportGlyphs"] = [n]
-    if rng.random() < 0.35:
+    if rng.random() < 0.35 and not unkerned_extra:
         # digits whose primary script is specific (Deva / Arab / Beng) but which are shared between many scripts, in a font
         # that has none of those scripts: they are "common" for this font
         cands = [("zero-deva", 0x966, ("dev2",)), ("zero-ar", 0x660, ("arab",)), ("zero-bengali", 0x9E6, ())]
@@ -70,7 +70,22 @@ def gen(rng):
             glyphs.append({"name": n, "unicodes": [u], "width": 500, "anchors": [("top", Fr(250), Fr(700))], "contours": []})
             kerning[(n, SCRIPTS[tags[0]][0][0])] = Fr(-15)
             kerning[(SCRIPTS[tags[0]][1][0], n)] = Fr(-12)
+    kerned_tags = sorted(set(tags) | ({"deva"} if "dev2" in tags else set()))
+    if unkerned_extra:
+        # glyphs of ONE MORE script that takes no part in any kerning pair, and kerning between common glyphs (digits): the
+        # extra script has nothing of its own to register
+        have = {g["name"] for g in glyphs}
+        extra = next(t for t in ("grek", "cyrl", "latn", "hebr") if t not in tags and not ({n for n, _ in SCRIPTS[t]} & have))
+        for n, u in SCRIPTS[extra]:
+            glyphs.append({"name": n, "unicodes": [u], "width": 500, "anchors": [("top", Fr(250), Fr(700))], "contours": []})
+        for n, u in (("one", 0x31), ("two", 0x32), ("period", 0x2E)):
+            glyphs.append({"name": n, "unicodes": [u], "width": 500, "anchors": [], "contours": []})
+        kerning[("one", "two")] = Fr(-15)
+        kerning[("two", "period")] = Fr(-25)
+        tags = tags + [extra]
     mode = rng.choice(["none", "dflt", "one", "all", "all+lang"])
+    if unkerned_extra:
+        mode = "one"
     ls = []
     if mode != "none":
         ls.append(("DFLT", "dflt"))
@@ -89,7 +104,7 @@ def gen(rng):
                 ls += rng.choice([[("deva", "MAR "), ("deva", "NEP ")], [("dev2", "MAR ")], [("dev2", "NEP "), ("deva", "MAR ")]])
     fea = "".join("languagesystem %s %s;\n" % sl for sl in ls)
     return {"glyphs": glyphs, "kerning": kerning, "features": fea, "languagesystems": ls, "mode": mode, "lib": lib,
-            "exported_script_tags": sorted(set(tags) | ({"deva"} if "dev2" in tags else set()))}
+            "exported_script_tags": sorted(set(tags) | ({"deva"} if "dev2" in tags else set())), "kerned_script_tags": kerned_tags}
 
 
 def lookup_refs_section(ctx):
@@ -352,7 +367,7 @@ def explore(ctx):
     rng = ctx.subrng("reach")
     cases, meta = [], []
     for i in range(ctx.budget(60, 400)):
-        desc = gen(rng)
+        desc = gen(rng, unkerned_extra=(i % 6 == 3))
         lib = rng.choice(["ufoLib2", "defcon"])
         case = {"font": jsonable({k: (v if k != "kerning" else {"%s|%s" % kk: vv for kk, vv in v.items()}) for k, v in desc.items()}), "lib": lib}
         try:
@@ -401,8 +416,11 @@ def explore(ctx):
             # F6 is about scripts of the font's own (exported) glyphs that no languagesystem statement names; a script
             # that no exported glyph belongs to must not be registered at all
             exported = set(case["font"]["exported_script_tags"]) | {"DFLT"}
-            undeclared = [m for m in missing if m[0] not in declared and m[0] in exported]
-            real = [m for m in missing if m[0] in declared or m[0] not in exported]
+            # ... and that have kerning pairs of their OWN (that is why the kern block names them); a script without any
+            # kerning of its own has no business in the kern block
+            kerned = set(case["font"].get("kerned_script_tags", exported)) | {"DFLT"}
+            undeclared = [m for m in missing if m[0] not in declared and m[0] in exported and m[0] in kerned]
+            real = [m for m in missing if m[0] in declared or m[0] not in exported or m[0] not in kerned]
             if real or not missing:
                 ctx.spec_failure(dict(case, missing=real or "spec false"), "script(s) declared by languagesystem lack generated features: %r" % (real,))
             else:
